@@ -1,4 +1,4 @@
-import CSSVerif.TableMethod
+import CSSVerif.TMSound
 /-! Driver for C03: per history line `N p|c,c|s,s;...`, print after every prefix the answer of the
 `TableMethod` model and of the proven reference `lfpRef`:  `M v v v;v v v | L v v v;v v v`. -/
 def parseRule' (s : String) : Option Rule :=
@@ -26,7 +26,9 @@ partial def loop (h : IO.FS.Stream) : IO Unit := do
           let (t, ms, ls) := acc
           let t := t.addRuleKey r
           (t, ms ++ [showV n t], ls ++ [showL (lfpRef t.rules.toList n)])) (({} : TM), [], [])
-        IO.println ("M " ++ ";".intercalate ms ++ " | L " ++ ";".intercalate ls)
+        -- the hypothesis of the proven `tm_eq_lfp`: every insertion came to rest (runQ answers some)
+        let rest := (TM.runQ 100000 R {}).isSome
+        IO.println ("M " ++ ";".intercalate ms ++ " | L " ++ ";".intercalate ls ++ (if rest then " | rest=1" else " | rest=0"))
       | _, _ => IO.println "bad-op"
     | _ => IO.println "bad-op"
     loop h
